@@ -705,11 +705,17 @@ fn eq_case(idx: usize, c: &Value, rep: &mut Report) {
             ];
             (a == b, b == a, a == a, b == b, d)
         } else {
-            let mk = |z: &[f64]| {
-                let ang = if k == 99 { None } else { Some((k as f64 * PI / 2.0 + z[2]) as f32) };
+            // k = 99: neither box has an angle; 98: only the second one has (its angle coordinate, base 0); 97: only the first
+            let mk = |z: &[f64], first: bool| {
+                let ang = match k {
+                    99 => None,
+                    98 => if first { None } else { Some(z[2] as f32) },
+                    97 => if first { Some(z[2] as f32) } else { None },
+                    _ => Some((k as f64 * PI / 2.0 + z[2]) as f32),
+                };
                 Universal2DBox::new(z[0] as f32, z[1] as f32, ang, z[3] as f32, z[4] as f32)
             };
-            let (a, b) = (mk(&u), mk(&v));
+            let (a, b) = (mk(&u, true), mk(&v, false));
             let d = vec![
                 a.xc as f64 - b.xc as f64,
                 a.yc as f64 - b.yc as f64,
